@@ -233,12 +233,26 @@ def covTriple (xs ys : List Int) : Int × Int × Int :=
 
 def showTriple (t : Int × Int × Int) : String := s!"{t.1},{t.2.1},{t.2.2}"
 
+/-- ± in-strength (column sums) / out-strength (row sums) sequences: `np.sum(W * (W > 0), axis=0)` … -/
+def inStrength {n} (W : AMat Int n) (f : Int → Int) : List Int := (List.finRange n).map (colSum W f)
+def outStrength {n} (W : AMat Int n) (f : Int → Int) : List Int := (List.finRange n).map (rowSum W f)
+
+structure CorrOut where
+  rpi : Int × Int × Int
+  rpo : Int × Int × Int
+  rni : Int × Int × Int
+  rno : Int × Int × Int
+
+/-- the exact ingredients of the four returned correlations `rpos_in, rpos_ou, rneg_in, rneg_ou` -/
+def corrTriples {n} (W W0 : AMat Int n) : CorrOut :=
+  { rpi := covTriple (inStrength W posPart) (inStrength W0 posPart),
+    rpo := covTriple (outStrength W posPart) (outStrength W0 posPart),
+    rni := covTriple (inStrength W negPart) (inStrength W0 negPart),
+    rno := covTriple (outStrength W negPart) (outStrength W0 negPart) }
+
 def corrLine {n} (W W0 : AMat Int n) : String :=
-  let fr := List.finRange n
-  let t (f : Int → Int) (col : Bool) :=
-    covTriple (fr.map fun v => if col then colSum W f v else rowSum W f v)
-              (fr.map fun v => if col then colSum W0 f v else rowSum W0 f v)
-  s!"rpi={showTriple (t posPart true)} rpo={showTriple (t posPart false)} rni={showTriple (t negPart true)} rno={showTriple (t negPart false)}"
+  let c := corrTriples W W0
+  s!"rpi={showTriple c.rpi} rpo={showTriple c.rpo} rni={showTriple c.rni} rno={showTriple c.rno}"
 
 /-! ### driver -/
 
